@@ -761,6 +761,7 @@ class Plane(Generic[LTComponentT]):
     def __init__(self, bbox: Rect, gridsize: int = 50) -> None:
         self._seq: List[LTComponentT] = []  # preserve the object order.
         self._objs: Set[LTComponentT] = set()
+        self._removed: Set[LTComponentT] = set()  # removed, but still in _seq.
         self._grid: Dict[Point, List[LTComponentT]] = {}
         self.gridsize = gridsize
         (self.x0, self.y0, self.x1, self.y1) = bbox
@@ -795,6 +796,11 @@ class Plane(Generic[LTComponentT]):
 
     def add(self, obj: LTComponentT) -> None:
         """Place an object."""
+        if obj in self._removed:
+            # The object comes back: drop its stale entry so that it is
+            # iterated once, at its new position.
+            self._removed.remove(obj)
+            self._seq.remove(obj)
         for k in self._getrange((obj.x0, obj.y0, obj.x1, obj.y1)):
             if k not in self._grid:
                 r: List[LTComponentT] = []
@@ -813,6 +819,7 @@ class Plane(Generic[LTComponentT]):
             except (KeyError, ValueError):
                 pass
         self._objs.remove(obj)
+        self._removed.add(obj)
 
     def find(self, bbox: Rect) -> Iterator[LTComponentT]:
         """Finds objects that are in a certain area."""
